@@ -1,0 +1,27 @@
+//go:build verif
+// +build verif
+
+package watch
+
+import "github.com/taskctl/taskctl/internal/veriftrace"
+
+// Verification hooks (build tag "verif"). Nothing here is compiled into normal builds.
+// With VERIF_TRACE=<dir> set the watcher records through internal/veriftrace:
+//   watch-start {w}            Run was called
+//   watch-path  {w, path}      a selected path has been handed to the file system watcher
+//   watch-event {w, op, path}  an event was received from the file system watcher (before the
+//                              subscription filter)
+
+func verifWatch(ev, watcher, a, b string) {
+	if !veriftrace.Enabled() {
+		return
+	}
+	e := map[string]interface{}{"e": ev, "w": watcher}
+	switch ev {
+	case "watch-path":
+		e["path"] = a
+	case "watch-event":
+		e["op"], e["path"] = a, b
+	}
+	veriftrace.Emit(e)
+}
